@@ -10,11 +10,11 @@ GETTER_TASKS = getter_tasks()
 ID = "C08"
 META = {
     "assumptions": ['A-REAL', 'A-COMM', 'A-T', 'A-IND', 'A-CYTHON', 'A-SOLVER', 'A-ENGINE'],
-    "explanation": "update proved to write its own history buffers only at the current index (append-only frame, skolemised row), to write nothing outside the node, its children's subtrees and root.stale, to reset accumulators only on a date change and to leave root.stale False; every security update proved (lemma over its functional spec) to be idempotent: update;update == update on every heap map.",
+    "explanation": "update proved to write its own history buffers only at the current index (append-only frame, skolemised row), to write nothing outside the node, its children's subtrees and root.stale, to reset accumulators only on a date change and to leave root.stale False; every security update proved (lemma over its functional spec) to be idempotent: update;update == update on every heap map; a redundant update of a strategy proved to leave the node's own scalars, bankrupt flag and history rows unchanged (parked coupons are swept only on a date change - loop invariant).",
 }
 MANIFEST_ENTRY = {
     "level_text": 'Deductive proof of the positional write frames and of security-level idempotence for all states.',
-    "level_note": "Reals not floats; every read accessor is verified (refresh iff pending, own series cut at own date); idempotence of StrategyBase.update itself (DESIGN 4 C08 a) is not yet discharged.",
+    "level_note": "Reals not floats; every read accessor is verified (refresh iff pending, own series cut at own date); a redundant StrategyBase.update is proved to leave every scalar and every history row of the node itself unchanged, given the post-state of an earlier update (same date, tree not stale, recorded value / notional / spread equal to cash plus the children's current sums, rows of the date equal to the scalars) and no paper copy; that the children's sums are themselves unchanged is their own idempotence (security lemma, recursion: A-IND).",
     "technique": "contract-based deductive verification: VCs from the real AST (pyvc) discharged by z3/cvc5; loop invariants with ghost sums; lemmas over contract clauses",
 }
 
